@@ -52,8 +52,10 @@ IsBase(bit) == bit % BmSize = 0
 Rel(o) == o \in {"SeqCst", "AcqRel", "Release"}
 Acq(o) == o \in {"SeqCst", "AcqRel", "Acquire"}
 
-ChanBit == 1          \* slab index of the single Waker of a channel / piped thread
 ChanW == 1
+\* slab index of the single Waker of a channel / piped thread (1 unless filler
+\* wakers were created first: WakerBits then gives its index)
+ChanBit == IF ChanW \in DOMAIN WakerBits THEN WakerBits[ChanW] ELSE 1
 
 (* ------------------------------------------------------------------ *)
 ThInit(t) ==
@@ -74,7 +76,7 @@ SInit ==
     wbit |-> IF Kind = "waker" THEN WakerBits ELSE (ChanW :> ChanBit),   \* live waker -> bit
     hid |-> IF Kind = "waker" THEN WakerBits ELSE (ChanW :> ChanBit),    \* installed handler of waker -> bit
     free |-> << >>,       \* freed slab slots, most recent first
-    nextBit |-> IF Kind = "waker" THEN Max({WakerBits[w] : w \in DOMAIN WakerBits}) + 1 ELSE 2,
+    nextBit |-> IF Kind = "waker" THEN Max({WakerBits[w] : w \in DOMAIN WakerBits}) + 1 ELSE ChanBit + 1,
     nextW |-> 1000,
     dropList |-> << >>, mtx |-> << >>,     \* mutex name -> owner thread (absent = free)
     \* channel
@@ -153,7 +155,8 @@ SetStep(x, t) ==
   IN IF old # {} THEN AfterSet(x2, t)
      ELSE IF th.lvl = "leaf" THEN [x2 EXCEPT !.th[t].lvl = "summ"]
      ELSE IF th.lvl = "summ" THEN [x2 EXCEPT !.th[t].lvl = "top"]
-     ELSE AfterSet(Emit([x2 EXCEPT !.notified = TRUE], t, [e |-> "pollwaker"]), t)
+     ELSE \* the poll-waker callback; returning from it is a scheduling point
+          [Emit([x2 EXCEPT !.notified = TRUE], t, [e |-> "pollwaker"]) EXCEPT !.th[t].pc = "pw_ret"]
 
 (* ------------------------------------------------------------------ *)
 (* poll_wake on the main thread                                         *)
@@ -353,7 +356,7 @@ HandlerLocked(x) ==
 (* ------------------------------------------------------------------ *)
 Enabled(x, t) ==
   LET pc == x.th[t].pc IN
-  CASE pc \in {"begin", "ready", "set", "swap_top", "swap", "notify"} -> TRUE
+  CASE pc \in {"begin", "ready", "set", "pw_ret", "swap_top", "swap", "notify"} -> TRUE
     [] pc = "lock_dl" \/ pc = "exit_dl" \/ pc = "take_dl" -> MFree(x, "DL")
     [] pc = "lock_ch" -> MFree(x, "CH")
     [] pc = "lock_q" -> MFree(x, "Q")
@@ -368,6 +371,7 @@ Do(x, t) ==
                        ELSE [Lo(x, t, [k |-> "begin"]) EXCEPT !.th[t].pc = "ready"]
     [] pc = "ready" -> StepOp(x, t)
     [] pc = "set" -> SetStep(x, t)
+    [] pc = "pw_ret" -> AfterSet(x, t)
     [] pc = "swap_top" \/ pc = "swap" -> DrainStep(x)
     [] pc = "lock_dl" -> Locked(MLock(x, t, "DL"), t)
     [] pc = "exit_dl" -> Locked(MLock([x EXCEPT !.th[t].ret = "exit"], t, "DL"), t)
